@@ -60,14 +60,22 @@ func VerifH_C08_declare_compliance() {
 	}
 }
 
-// a pushed context can never drop a required flag (with C07 push lemma)
+// a pushed context can never drop a required flag, whatever limits the new
+// context asks for (with C07 push lemma)
 func VerifH_C08_push_keeps_flags() {
 	_, t := vhNewRuntime()
 	t.requiredFlags = ComplianceFlags(nondetUint16("parent"))
 	def := RuntimeContextDef{RequiredFlags: ComplianceFlags(nondetUint16("child"))}
+	def.HardLimits = vhNondetRes("dh")
+	def.SoftLimits = vhNondetRes("ds")
+	verifAssume(vhResBounded(def.HardLimits) && vhResBounded(def.SoftLimits))
 	before := t.requiredFlags
 	t.PushContext(def)
 	verifAssert(t.requiredFlags&before == before && t.requiredFlags&def.RequiredFlags == def.RequiredFlags, "child-requires-at-least-parents-flags")
+	// nested once more, as pcall does
+	t.PushContext(RuntimeContextDef{})
+	verifAssert(t.requiredFlags&before == before, "grandchild-keeps-flags")
+	t.PopContext()
 	t.PopContext()
 	verifAssert(t.requiredFlags == before, "pop-restores-parent-flags")
 }
